@@ -10,7 +10,7 @@
      first_abort i cs   the first chunk at which an inspector in state i fed cs raises (AbFault e)
                         or is complete without matching after a successful eat_chunk (AbMismatch) *)
 Require Import OV.Base.Bytes OV.Base.Py OV.Base.C06_WrapShape.
-Require Import OV.Gen.C06_Wrapper OV.Model.Wrap OV.Proofs.Wrap OV.Proofs.C06.
+Require Import OV.Gen.C06_Wrapper OV.Gen.C06_Code OV.Model.Wrap OV.Model.C06_CodeLib OV.Proofs.Wrap OV.Proofs.C06 OV.Proofs.C06_Equiv.
 Open Scope N_scope.
 
 (* ---- reads_are_identity ------------------------------------------------------------- *)
@@ -379,3 +379,27 @@ Theorem C06_first_abort_none_spec :
      let ik := fst (feed I eat i (firstn k cs)) in complete ik && negb (fmatch ik) = false).
 Proof. exact (fun I eat complete fmatch => first_abort_none_spec I eat (fun x => x) complete fmatch gen_shape gen_shape_ok). Qed.
 Print Assumptions C06_first_abort_none_spec.
+
+(* ---- the tie: the statement-level translation of the source IS the model -------------- *)
+(* Gen/C06_Code.v is regenerated from the source text of InspectWrapper on every run
+   (tools/gen/gen_C06_code.py); Proofs/C06_Equiv.v proves every translated method equal to
+   the model the theorems above are about (further *_equiv lemmas there: __next__, close,
+   __init__, _finish, formats, detect_file_format).  Here: _process_chunk, read, format. *)
+Theorem C06_translation_is_the_model :
+  forall I eat finish complete fmatch (w : wrapper I),
+  (forall chunk, gen_process_chunk I eat complete fmatch w chunk =
+     let '(w', tr, r) := process_chunk I eat complete fmatch gen_shape w chunk in (w', exn_res r)) /\
+  (forall s size, gen_read I eat complete fmatch fsrc f_read w s size =
+     let '(w', s', tr, inp, o) := w_read I eat finish complete fmatch gen_shape w s size in (w', s', out_res o)) /\
+  (forall s, gen_next I eat finish complete fmatch isrc i_next w s =
+     let '(w', s', tr, inp, o) := w_next I eat finish complete fmatch gen_shape w s in (w', s', out_res o)) /\
+  gen_finish I finish w = (finish_all I finish w, Ok tt) /\
+  gen_format I complete fmatch w = format I complete fmatch raw_lit_nonraw raw_lit_raw w.
+Proof.
+  exact (fun I eat finish complete fmatch w =>
+    conj (gen_process_chunk_equiv I eat complete fmatch w)
+   (conj (gen_read_equiv I eat finish complete fmatch w)
+   (conj (gen_next_equiv I eat finish complete fmatch w)
+   (conj (gen_finish_equiv I finish w) (gen_format_equiv I complete fmatch w))))).
+Qed.
+Print Assumptions C06_translation_is_the_model.
